@@ -22,7 +22,9 @@ mod verif_search {
     const OFFS: [i64; 12] = [-70, -64, -63, -2, -1, 0, 1, 2, 63, 64, 65, 70];
 
     /// op = (index into OFFS relative to the current last tick, messages_count)
-    fn run(start: u32, ops: &[(usize, usize)]) -> Option<String> { run_with(start, ops, false) }
+    /// Sequences of at most one operation are also probed with every range query (cheap), so that a refuted
+    /// `contains_any` obligation of the Verus unit gets a concrete input from this search as well.
+    fn run(start: u32, ops: &[(usize, usize)]) -> Option<String> { run_with(start, ops, ops.len() <= 1) }
 
     /// `ranges`: additionally compare `contains_any(a, b)` for every range around the window with the model
     /// (exists t in [a, b]: received_all(t)); `contains_any` is out of reach of both verifiers.
